@@ -53,6 +53,50 @@ ANCHORS = {
 }
 
 
+def _edited_route(nV, F, rng):
+    """(face list before the edit, face list after it, edited face, how the raw data got its corner records) or None when no face of the
+    mesh can lose a corner and leave a certified oriented manifold surface without unused vertices."""
+    cand = [k for k, f in enumerate(F) if len(f) >= 4]
+    rng.shuffle(cand)
+    base_unused = topo.analyse(nV, F)["unused_vertices"]
+    for k in cand[:6]:
+        j = rng.randrange(len(F[k]))
+        small = [list(f) for f in F]
+        small[k] = [v for i, v in enumerate(F[k]) if i != j]
+        try:
+            a = topo.analyse(nV, small)
+        except Exception:
+            continue
+        if not (a["manifold"] and a["oriented"]) or a["degenerate_faces"] or a["repeated_faces"] or a["unused_vertices"] != base_unused:
+            continue
+        big = [list(f) for f in F]
+        how = rng.choice(["file_obj", "file_off", "from_mesh"])  # formats that keep the order of the faces and store polygons
+        return (big, small, k, how) if rng.random() < 0.6 else (small, big, k, how)
+    return None
+
+
+def _raw_with_records(V, F_pre, how, vrows, irows):
+    import os, tempfile
+    import mouette as M
+    pre = build.surface(V, F_pre, vrows, irows)
+    if how == "from_mesh":
+        return M.mesh.RawMeshData(pre)
+    with tempfile.TemporaryDirectory(prefix="mvc01_") as d:
+        path = os.path.join(d, "pre." + how.split("_")[1])
+        M.mesh.save(pre, path)
+        return M.mesh.load(path, raw=True)
+
+
+def _build_edited(V, F_pre, F, k, how, drop_edges, vrows, irows, subclass):
+    import mouette as M
+    data = _raw_with_records(V, F_pre, how, vrows, irows)
+    if drop_edges:
+        data.edges.clear()
+    data.faces[k] = build.rows([F[k]], irows)[0]
+    cls = build._user_surface_class() if subclass else M.mesh.SurfaceMesh
+    return cls(data)
+
+
 def run_case(desc, ctx):
     if desc["gen"] == "anchor":
         nv, F = ANCHORS[desc["name"]]
@@ -70,6 +114,29 @@ def run_case(desc, ctx):
         V = np.vstack([np.asarray(V, float)[:k], [[9.0, 9.0, 9.0]], np.asarray(V, float)[k:]])
         F = [[v + (v >= k) for v in f] for f in F]
         ctx.cls("isolated_vertex:yes")
+    # construction route: raw data that already carries corner records (what every file reader and RawMeshData(mesh) produce) and whose
+    # face list was then edited through the public container interface so that the number of corners changes (a quad collapsed to a
+    # triangle, or the reverse); the finished mesh must describe the edited face list
+    route = None
+    if desc["seed"] % 6 == 4:
+        route = _edited_route(len(V), F, rng)
+    if route is not None:
+        # the round trip through a file is C04's subject: the route is only taken when the raw data read back is the face list written
+        probe = _raw_with_records(V, route[0], route[3], desc["vrows"], desc["irows"])
+        if [list(map(int, f)) for f in probe.faces] != [list(f) for f in route[0]] or len(probe.face_corners) != sum(len(f) for f in route[0]):
+            ctx.cls("route:skipped_raw_data_read_back_differs")
+            route = None
+    stale_edges = False
+    if route is not None:
+        F_pre, F, k_edit, how_loaded = route
+        a = topo.analyse(len(V), F)
+        # the raw data also carries the edges of the face list before the edit: they are declared edges and legitimately stay in the edge
+        # container; either they are removed with the container's own clear() before building, or the answers read from the edge container
+        # (which then describe that container) are not judged
+        drop_edges = len(probe.edges) > 0 and rng.random() < 0.5
+        stale_edges = len(probe.edges) > 0 and not drop_edges  # either direction leaves a side of the face as it was before the edit
+        ctx.cls("route:edges_of_the_raw_data:" + ("none" if len(probe.edges) == 0 else "cleared" if drop_edges else "kept"))
+        ctx.cls("route:raw_with_corner_records_%s_then_face_%s" % (how_loaded, "shrunk" if len(F[k_edit]) < len(F_pre[k_edit]) else "grown"))
     ref = RefSurface(len(V), F)
     sorted_on = desc["sorted"]
     P = surfconn.probes(ref, rng)
@@ -96,12 +163,17 @@ def run_case(desc, ctx):
     if no_edges:
         ctx.cls("config:complete_edges_from_faces=False")
     with build.config(sort_neighborhoods=sorted_on, complete_edges_from_faces=not no_edges):
-        ok, m0 = ctx.call("construct", build.surface, V, F, desc["vrows"], desc["irows"], None, user_class)
+        if route is not None:
+            def construct(V, F, vrows, irows, E, subclass):
+                return _build_edited(V, F_pre, F, k_edit, how_loaded, drop_edges, vrows, irows, subclass)
+        else:
+            construct = build.surface
+        ok, m0 = ctx.call("construct", construct, V, F, desc["vrows"], desc["irows"], None, user_class)
         canonical = list(range(nacc))
         T0 = surfconn.run_script(ctx, m0, S, canonical)
         edges = build.edges_list(m0)
         fc = [(int(m0.face_corners.element(c)), int(m0.face_corners.adj(c))) for c in range(len(m0.face_corners))]
-        if no_edges:
+        if no_edges or stale_edges:
             judged = {k: v for k, v in T0.items() if k not in EDGE_CONTAINER_ANSWERS}
             surfconn.verify(ctx, judged, ref, sorted(ref.edges), P, sorted_on, face_corners=fc)
         else:
@@ -111,7 +183,7 @@ def run_case(desc, ctx):
             rest = [i for i in range(nacc) if i != first]
             rng.shuffle(rest)
             order = [first] + rest
-            ok, m = ctx.call("construct", build.surface, V, F, desc["vrows"], desc["irows"], None, user_class)
+            ok, m = ctx.call("construct", construct, V, F, desc["vrows"], desc["irows"], None, user_class)
             clear_at = rng.randrange(2, nacc) if j % 3 == 2 else None
             T = surfconn.run_script(ctx, m, S, order, clear_at=clear_at)
             for name, _ in S:
